@@ -24,7 +24,7 @@ import models as M
 from common import (Check, MachineryError, RawTLA, main_wrapper, run_tlc, run_workers, stage_spec, tlc_printed_values, to_tla,
                     validate_records, worker_main, write_live_module)
 
-REPO = os.environ.get("CIDERPRESS_REPO", "/repo")
+REPO = os.environ.get("CIDER_REPO", "/repo")
 
 # refinement ladder: (aux_lambd, angular cut-off of the CiderGrids expansion); bound on the weighted L2 error
 NLDF_RUNGS = [dict(aux_lambd=2.2, lmax=6), dict(aux_lambd=1.6, lmax=10), dict(aux_lambd=1.45, lmax=12)]
